@@ -1265,11 +1265,6 @@ class MountPointStore(RoutingStore):
             if prefix.startswith(key + "/") or key in (None, ""):
                 v = prefix.split("/")
                 d.add(v[key_depth])
-        if self.default_store is not None:
-            for prefix in self.default_store.keys():
-                if prefix.startswith(key + "/") or key in (None, ""):
-                    v = prefix.split("/")
-                    d.add(v[key_depth])
 
         return sorted(d)
 
